@@ -5,6 +5,9 @@
 #[verifier::external_trait_specification]
 pub trait ExRead {
     type ExternalTraitSpecificationFor: std::io::Read;
+    // wrapping a source into its byte iterator reads nothing
+    fn bytes(self) -> (b: std::io::Bytes<Self>) where Self: Sized
+        ensures stream(&b) == source(self);
 }
 
 #[verifier::external_type_specification]
@@ -17,6 +20,8 @@ pub struct ExIoError(std::io::Error);
 pub struct ExBytes<R>(std::io::Bytes<R>);
 
 pub uninterp spec fn stream<R>(b: &std::io::Bytes<R>) -> Seq<Option<u8>>;
+// the fixed sequence of read results a source WILL deliver (a byte, or a failing read)
+pub uninterp spec fn source<R>(r: R) -> Seq<Option<u8>>;
 
 pub assume_specification<R: std::io::Read>[ <std::io::Bytes<R> as Iterator>::next ](b: &mut std::io::Bytes<R>) -> (r: Option<std::io::Result<u8>>)
     ensures
